@@ -912,6 +912,12 @@ func (m *Machine) observe(s *Step) {
 			m.cheapenRecovery(owner, shown)
 		}
 	}
+	// oauth2 login that created an account
+	if op.K == "o2cb" && r.UID() != "" && m.KB.idx(r.UID()) < 0 {
+		if u := m.W.Store.Peek(r.UID()); u != nil {
+			m.KB.addAcct(r.UID(), u.Email, "")
+		}
+	}
 	// remember cookie issued: work out whom it was issued to from what happened
 	// in this request (never from the cookie's own bytes).
 	if c, ok := r.CookAfter["rm"]; ok && c != r.CookBefore["rm"] {
@@ -946,12 +952,6 @@ func (m *Machine) observe(s *Step) {
 			if _, existed := s.Pre.Users[s.Pid]; !existed {
 				m.KB.addAcct(s.Pid, u.Email, s.Secret)
 			}
-		}
-	}
-	// oauth2 login that created an account
-	if op.K == "o2cb" && r.UID() != "" && m.KB.idx(r.UID()) < 0 {
-		if u := m.W.Store.Peek(r.UID()); u != nil {
-			m.KB.addAcct(r.UID(), u.Email, "")
 		}
 	}
 	// a recover-end that changed the stored hash: the typed password becomes the account's password
